@@ -571,6 +571,110 @@ def r4(k: Kit) -> None:
     rep.floor('C13.R4', 'listing-name joins', n_join, 2)
 
 
+def r5(k: Kit) -> None:
+    """Attributes are applied to what the client created, link or not."""
+    from ..flow import depends_on
+    rep = k.rep
+    rep.rule('C13.R5', 'SFTPClient._copy (preserve): whether setstat at the '
+             'destination follows a symbolic link is decided from '
+             'follow_symlinks and filetype - the type the function '
+             'dispatched on when it created the destination entry - and not '
+             'from a later answer of the (possibly hostile) source: having '
+             'created a symlink, the client must not chmod / utime through '
+             'it because a second stat now says "regular file"')
+    fi = k.func('sftp.SFTPClient._copy')
+    g = k.cfg(fi)
+    rd = k.rd(fi)
+    sites = [(n, c) for n, c in k.call_nodes(
+        fi, lambda c: is_call(c, 'setstat', 'dstfs'))]
+    rep.floor('C13.R5', 'destination setstat sites', len(sites), 1)
+    # names defined from a source-side reply inside the preserve block
+    for n, c in sites:
+        kw = [x.value for x in c.keywords if x.arg == 'follow_symlinks']
+        if not kw:
+            rep.violation('C13.R5', key(fi, 'setstat follow_symlinks'),
+                          'destination setstat without follow_symlinks: '
+                          'attributes are applied through a symlink the '
+                          'client has just created', k.loc(fi, n))
+            continue
+        deps = depends_on(g, rd, n.id, kw[0])
+        allowed = {'follow_symlinks', 'filetype', 'FILEXFER_TYPE_SYMLINK',
+                   'srcattrs', 'self'}
+        # filetype itself comes from the first stat (srcattrs); anything
+        # else obtained from the source afterwards is not acceptable
+        extra = {d for d in deps if d not in allowed and
+                 not d.startswith('self.') and
+                 not d.isupper()} - {'srcfs', 'srcpath'}
+        rep.check('filetype' in deps and not ({'attrs'} & deps), 'C13.R5',
+                  key(fi, 'setstat follow_symlinks'),
+                  'decided from follow_symlinks and filetype',
+                  f'`{norm(kw[0])}` depends on {sorted(deps - allowed)}: a '
+                  'server that lists a name as a symlink and answers the '
+                  'preserve stat as a regular file makes the client chmod / '
+                  'utime through the link it has just created - an existing '
+                  'file outside the destination is modified',
+                  k.loc(fi, n))
+
+
+def r6(k: Kit) -> None:
+    """The SCP sink never climbs above the directory it was started in."""
+    rep = k.rep
+    idx = k.idx
+    rep.rule('C13.R6', '_SCPSink: an E record ends the receive loop of the '
+             'directory level it belongs to (no path from the E branch back '
+             'to the next recv_request), and no method of the sink shortens '
+             'a destination path (dirname / split / ".."): the directory '
+             'being written into only grows by names _parse_cd_args '
+             'validated, so an unmatched E from a hostile `scp -f` cannot '
+             'move the sink to the parent of the caller\'s destination')
+    cls = idx.cls('scp._SCPSink')
+    fi = cls.methods.get('_recv_files')
+    if fi is None:
+        rep.violation('C13.R6', 'scp._SCPSink|_recv_files', 'not found',
+                      cls.module.relpath)
+        return
+    g = k.cfg(fi)
+    reqs = [n.id for n, c in k.calls_named(fi, 'recv_request', 'self')]
+    ends = [a for a in g.nodes if a.kind == 'atom' and
+            isinstance(a.ast, ast.Compare) and
+            dotted(a.ast.left) == 'action' and
+            isinstance(a.ast.comparators[0], ast.Constant) and
+            a.ast.comparators[0].value == b'E']
+    rep.floor('C13.R6', 'E record tests', len(ends), 1)
+    rep.floor('C13.R6', 'request reads', len(reqs), 1)
+    for a in ends:
+        w = None
+        for b, lab in g.succ[a.id]:
+            if lab is True:
+                for r in reqs:
+                    w = w or ([b] if b == r else
+                              g.path(b, r, follow_exc=False))
+        rep.check(w is None, 'C13.R6', key(fi, 'E ends this level'),
+                  'after an E record no further request is read at this '
+                  'level',
+                  'after an E record the sink goes on reading requests in '
+                  'the same loop: a second, unmatched E (or records after '
+                  'the E that closes the top-level directory) are applied '
+                  'one level above the caller\'s destination', k.loc(fi, a),
+                  g.describe_path(w) if w else None)
+    n = 0
+    for f in cls.methods.values():
+        for c in ast.walk(f.node):
+            if isinstance(c, ast.Call) and (dotted(c.func) or '').endswith(
+                    ('path.dirname', 'path.split', 'path.normpath')):
+                args = {x for a in c.args for x in names_read(a)}
+                if any('dst' in x for x in args):
+                    n += 1
+                    rep.violation('C13.R6', key(f, 'destination path '
+                                                'shortened'),
+                                  f'`{norm(c)}`: the sink derives a '
+                                  'destination directory by cutting a path '
+                                  'instead of returning to the caller\'s '
+                                  'level', f.loc(c))
+    rep.ok('C13.R6', 'scp._SCPSink|no destination path shortened',
+           f'{len(cls.methods)} methods, {n} shortening calls')
+
+
 def run(idx, rep, tier):
     k = Kit(idx, rep)
     rep.assumptions += NOT_DECIDED
@@ -578,3 +682,5 @@ def run(idx, rep, tier):
     r2(k)
     r3(k)
     r4(k)
+    r5(k)
+    r6(k)
